@@ -278,7 +278,7 @@ _EXTRA = {
     'R84': (['C04'], 'R84: surface.alignments / role_alignments scan the whole marker list of a triple.'),
     'R85': (['C10', 'C20'], 'R85: the letter that becomes the variable prefix is chosen with str.isalpha (or a one-character pattern whose language is exactly that set).'),
     'R58': (['C05', 'C12'], 'R58: rearrange(attributes_first=True) tells attributes from edges with the variables of all nodes of the tree (t.nodes()), the top included.'),
-    'R14': (['C10'], 'R14 (E4): nodes(), format, interpret and the other read-only calls on a tree do not write to it (a cache written by a query goes stale when the tree is rearranged, and relabelling then numbers the old order).'),
+    'R14': (['C10', 'C13'], 'R14 (E4): nodes(), format, interpret and the other read-only calls on a tree do not write to it (a cache written by a query goes stale when the tree is rearranged, and relabelling then numbers the old order).'),
     'R14r': (['C17', 'C13', 'C20'], 'R14r (E4): the tree returned by canonicalize_roles / configure / reconfigure / parse contains no list object of an argument (the points-to closure of the result is disjoint from the parameters\' lists), so the in-place operations on the result cannot reach the original.'),
     'R88': (['C01', 'C02', 'C03', 'C09', 'C11', 'C12', 'C15', 'C16', 'C20'], 'R88: a constructor stores what it is given (reaching definitions: the parameter itself reaches self.x) and every Graph / Tree built from a graph or tree argument is given that argument\'s metadata.'),
     'R89': (['C01', 'C02', 'C03', 'C05', 'C09', 'C10', 'C19', 'C20'], 'R89: the parameters and default values of the public callables are the documented ones (spec/signatures.json, transcribed from the pinned tree and the API docs).'),
@@ -356,6 +356,21 @@ _EXTRA = {
     'R124': (['C14'],
              'R124: in node_contexts the target of a triple becomes a candidate context only under `role != CONCEPT_ROLE` and membership in the variables (CFG facts at the append); '
              'the stack top is recorded only under the established candidate test; the mismatch branch leaves the loop.'),
+    'R28': (['C04'], 'R28 (sibling): the -of suffix is cut with a slice of its own length, never by replace/partition/strip (which cut at the first occurrence).'),
+    'R125': (['C05', 'C20', 'C02', 'C03'],
+             'R125: where a list is split into two comprehensions over the same source and concatenated again, the two filter conditions are checked (E7 boolean normaliser, with '
+             '"str implies atomic" and "member of the variables implies str") to hold for exactly one of them under every feasible assignment; a witness element is reported otherwise.'),
+    'R126': (['C05', 'C20', 'C17'],
+             'R126: every def / lambda inside a loop body is examined: the names it reads that the loop re-binds must be empty, or the function object must not outlive the iteration '
+             '(called on the spot, or a key= of an immediate call); otherwise the late-binding closure is reported.'),
+    'R127': (['C07', 'C01', 'C09', 'C19', 'C04', 'C20'],
+             'R127: an assignment that unpacks str.split/rsplit into a fixed number of names stands under a condition on the text that is split (CFG facts); otherwise the '
+             'ValueError for a text with fewer separators is reported.'),
+    'R43': (['C08', 'C09'], 'R43 (sibling): the TokenIterator protocol methods keep the one-token lookahead consistent (a token is handed out once, with its own position).'),
+    'R128': (['C11', 'C12', 'C04', 'C17', 'C02'],
+             'R128: AlignmentMarker.__eq__ is read (it does not compare classes); given that, no ==, in / not in, list.remove/index/count is applied to a marker taken from an epidata '
+             'list in transform, layout, surface, graph or __main__ - markers are classified with isinstance or .mode only.'),
+    'R48': (['C19'], 'R48 (sibling): a memo or cache is keyed by everything its stored result depends on (a result that also depends on a flag is not stored under the text alone).'),
     'R108': (['C03', 'C05', 'C12', 'C20'], 'R108: in configure no path leads from the _find_next call back to the loop head without the list of passed-over data having been used.'),
     'R87': (['C20', 'C17'], 'R87: the option tables main() builds once are only read by process/_process_in/_process_out (alias-following over what is unpacked from them).'),
     'R86': (['C01', 'C07', 'C08', 'C09', 'C19', 'C20'], 'R86: an argument annotated as Iterable / Iterator / file is walked at most once on every path (a second walk of a file or generator finds nothing).'),
